@@ -5,6 +5,7 @@ import (
 	"fmt"
 	"github.com/aml-org/amf-custom-validator/internal/parser/path"
 	y "github.com/aml-org/amf-custom-validator/internal/parser/yaml"
+	"strconv"
 )
 
 type NumericRule struct {
@@ -30,7 +31,7 @@ func (r NumericRule) String() string {
 		return fmt.Sprintf("%s%s(%s,'%s',%d)", negation, r.Name, r.Variable.Name, r.Path.Source(), i)
 	}
 	f, _ := r.Argument.Float()
-	return fmt.Sprintf("%s%s(%s,'%s',%f)", negation, r.Name, r.Variable.Name, r.Path.Source(), f)
+	return fmt.Sprintf("%s%s(%s,'%s',%s)", negation, r.Name, r.Variable.Name, r.Path.Source(), FormatFloat(f))
 }
 
 func (r NumericRule) IntArgument() (int, error) {
@@ -47,7 +48,17 @@ func (r NumericRule) StringArgument() string {
 		return fmt.Sprintf("%d", i)
 	}
 	f, _ := r.Argument.Float()
-	return fmt.Sprintf("%f", f)
+	return FormatFloat(f)
+}
+
+// FormatFloat writes a bound as a numeric literal: with six decimals when that denotes the number
+// exactly, with as many digits as the number needs otherwise (1.0000004 is not 1.000000).
+func FormatFloat(f float64) string {
+	s := fmt.Sprintf("%f", f)
+	if back, err := strconv.ParseFloat(s, 64); err != nil || back != f {
+		return strconv.FormatFloat(f, 'f', -1, 64)
+	}
+	return s
 }
 
 func newNumericComparison(negated bool, name string, operation CardinalityOperation, variable Variable, path path.PropertyPath, argument *y.Yaml) (NumericRule, error) {
